@@ -1311,8 +1311,8 @@ Section Servers.
     assert (C2 : WFx [] s2 /\ Stay (s <| log := [] |>) s2).
     { destruct Hev as [Ha|[j Hf]]; [split; [eapply arrival_have_event_spec; eauto|eapply Stay_arrival_have_event; eauto]
                                    |split; [eapply finish_service_spec; eauto|eapply Stay_finish_service; eauto]]. }
-    destruct C2 as [W2 S2]. pose proof (Stay_trans _ _ _ S2 (Stay_K _ _ (K2 (WFx_Idx _ _ W2)))) as [_ S].
-    intros k i sid Ha Hs. exact (S k i sid Ha Hs).
+    destruct C2 as [W2 S2]. pose proof (Stay_trans _ _ _ S2 (Stay_K _ _ (K2 (WFx_Idx _ _ W2)))) as [_ HSt].
+    intros k i sid Ha Hs. exact (HSt k i sid Ha Hs).
   Qed.
 
   (* in terms of the servers: a busy server keeps its customer until that customer is released from the node *)
@@ -1323,10 +1323,10 @@ Section Servers.
                        In sv' (n_servers nd') /\ sv_id sv' = sv_id sv /\ sv_cust sv' = Some i /\ sv_busy sv' = true) \/
       left_node s' k i.
   Proof.
-    intros HJ H k nd nc c sv i Hk Hc Hcc Hsv Hcu. pose proof (event_step_srv _ _ HJ H) as [W' S']. destruct HJ as [HW HS].
+    intros HJ H k nd nc c sv i Hk Hc Hcc Hsv Hcu. pose proof (event_step_srv _ _ HJ H) as [W' HS']. destruct HJ as [HW HS].
     pose proof (HS k nd nc Hk Hc) as HF. rewrite Hcc in HF. cbn in HF. destruct (fo_cust _ _ _ _ HF sv i Hsv Hcu) as [Hi Hs].
     destruct (event_step_stays _ _ HW H k i (sv_id sv) (ex_intro _ nd (conj Hk Hi)) Hs) as [[(nd' & Hk' & Hi') Hs']|Hl]; [left|right; exact Hl].
-    pose proof (S' k nd' nc Hk' Hc) as HF'. rewrite Hcc in HF'. cbn in HF'.
+    pose proof (HS' k nd' nc Hk' Hc) as HF'. rewrite Hcc in HF'. cbn in HF'.
     destruct (fo_inv _ _ _ _ HF' i (sv_id sv) Hi' Hs') as (sv' & A1 & A2 & A3).
     exists nd', sv'. split; [exact Hk'|]. split; [exact Hi'|]. split; [exact A1|]. split; [exact A2|]. split; [exact A3|].
     rewrite (fo_busy _ _ _ _ HF' sv' A1), A3. reflexivity.
